@@ -235,11 +235,70 @@ static bool gen_parallel_merge(Rng &r, const std::vector<std::string> &vocab, co
     return true;
 }
 
+static std::vector<std::vector<std::string>> g_homophones;
+void set_homophone_groups(const std::vector<std::vector<std::string>> &groups) { g_homophones = groups; }
+
+// Two equally weighted continuations after a common prefix: the sentence's own word, leading straight to the final
+// state, and a homophone of it that still needs one more word.  Both score exactly alike at the end of the audio; only
+// the first is a sentence.  The unfinished branch gets the lower state numbers.
+static bool gen_homophone_tie(Rng &r, const std::vector<std::string> &vocab, const std::vector<std::string> &prefer, Json &out)
+{
+    if (prefer.size() < 2 || g_homophones.empty())
+        return false;
+    std::vector<std::pair<size_t, std::string>> cand;
+    for (size_t i = 1; i < prefer.size(); ++i)
+        for (auto &g : g_homophones)
+            if (std::find(g.begin(), g.end(), prefer[i]) != g.end())
+                for (auto &w : g)
+                    if (w != prefer[i])
+                        cand.emplace_back(i, w);
+    if (cand.empty())
+        return false;
+    // prefer a tie on the last word of the sentence
+    std::sort(cand.begin(), cand.end());
+    auto pick = r.chance(0.7) ? cand.back() : cand[r.below(cand.size())];
+    size_t k = pick.first;
+    Nfa a;
+    int cur = a.add_state();
+    a.start = cur;
+    for (size_t i = 0; i < k; ++i) {
+        int nx = a.add_state();
+        a.add(cur, nx, prefer[i]);
+        cur = nx;
+    }
+    int branch = cur;
+    int unfinished = a.add_state();
+    a.add(branch, unfinished, pick.second);
+    int after = a.add_state();
+    a.add(branch, after, prefer[k]);
+    cur = after;
+    for (size_t i = k + 1; i < prefer.size(); ++i) {
+        int nx = a.add_state();
+        a.add(cur, nx, prefer[i]);
+        cur = nx;
+    }
+    int fin = cur;
+    a.add(unfinished, fin, !vocab.empty() ? r.pick(vocab) : std::string("a"));
+    a.finals = { fin };
+    std::ostringstream o;
+    o << "FSG_BEGIN ht" << (r.next() & 0xfff) << "\nNUM_STATES " << a.n << "\nSTART_STATE " << a.start << "\nFINAL_STATE " << fin << "\n";
+    for (auto &arc : a.arcs)
+        o << "TRANSITION " << arc.from << " " << arc.to << " " << ((arc.from == branch) ? "0.5" : "1.0") << " " << arc.label << "\n";
+    o << "FSG_END\n";
+    out = pack("fsg", o.str(), a, { "homophone_tie" });
+    return true;
+}
+
 static bool g_converge = false;
 void set_convergence_bias(bool on) { g_converge = on; }
 
 static Json gen_fsg_pref(Rng &r, const std::vector<std::string> &vocab, const std::vector<std::string> &prefer)
 {
+    if (r.chance(g_converge ? 0.12 : 0.04)) {
+        Json ht;
+        if (gen_homophone_tie(r, vocab, prefer, ht))
+            return ht;
+    }
     if (r.chance(g_converge ? 0.45 : 0.2)) {
         Json pm;
         if (gen_parallel_merge(r, vocab, prefer, pm))
